@@ -155,6 +155,7 @@ func checkC11(c *an.Ctx) {
 	c.Rule("C11.4", "name (E5): with an empty ExportAs the key is ReplaceAllString([^a-zA-Z0-9_] → _) of ToUpper(Task.Name)+\"_OUTPUT\"; otherwise it is Task.ExportAs unchanged; the value is Task.Log.Stdout")
 	c.Rule("C11.5", ".Output (E3/E5): before each Execute the variable Output is set from a loop-carried value that every back edge refreshes with that iteration's Execute result; Execute returns the buffer suffix starting at the length recorded before the interpreter ran")
 	c.Rule("C11.6", "the capture is only appended to and read whole (who-may-touch, module-wide + E2): apart from the tee, every use of &Task.Log.Stdout is a non-consuming read (String, Len, Bytes, Cap); anything that consumes, truncates, resets or writes it (Read*, Next, WriteTo, Reset, Truncate, Write*, handing it out as an io.Reader or a *bytes.Buffer) is unreachable while Task.Errored is false")
+	c.Rule("C11.7", "every run captures into buffers of its own (type shape + E4): a stage runs a value copy of its task, so the capture buffers must be part of the task value — Task.Log and its Stdout are reached without a pointer, map, slice or interface on the way — or else every whole-value copy of a task made in the module is given a newly allocated log before it is used; otherwise two stages (or two firings of a watcher) that share a task write into one buffer and each sees the other's output")
 	c.NotDecided = append(c.NotDecided, "byte-exactness, buffering inside the interpreter", "the exact sanitising alphabet beyond the regexp constant", "accumulation of Log across repeated runs of one task object")
 	p := c.P
 	r := resolveRunner(c, "C11.0")
@@ -313,6 +314,92 @@ func checkC11(c *an.Ctx) {
 
 	// C11.6
 	captureBufferUses(c, "C11.6")
+
+	// C11.7
+	captureOwnership(c, "C11.7")
+}
+
+// captureOwnership checks C11.7.
+func captureOwnership(c *an.Ctx, rule string) {
+	p := c.P
+	var taskT *types.Named
+	for _, fn := range p.Funcs {
+		for _, prm := range fn.Params {
+			if an.TypeIs(prm.Type(), "pkg/task", "Task") {
+				if n, ok := an.Deref(prm.Type()).(*types.Named); ok {
+					taskT = n
+				}
+			}
+		}
+		if taskT != nil {
+			break
+		}
+	}
+	if taskT == nil {
+		c.Und(rule, "task.Task", token.NoPos, "type Task not found")
+		return
+	}
+	byValue, where := true, ""
+	var t types.Type = taskT
+	for _, f := range []string{"Log", "Stdout"} {
+		stt, ok := t.Underlying().(*types.Struct)
+		if !ok {
+			byValue, where = false, "the holder of "+f+" is a "+types.TypeString(t, func(pk *types.Package) string { return pk.Name() })
+			break
+		}
+		var ft types.Type
+		for i := 0; i < stt.NumFields(); i++ {
+			if stt.Field(i).Name() == f {
+				ft = stt.Field(i).Type()
+			}
+		}
+		if ft == nil {
+			c.Und(rule, "task.Task."+f, token.NoPos, "field %s not found on the way to the capture buffer", f)
+			return
+		}
+		t = ft
+	}
+	if byValue && !an.TypeIs(t, "bytes", "Buffer") {
+		byValue, where = false, "the capture is a "+types.TypeString(t, func(pk *types.Package) string { return pk.Name() })
+	}
+	if _, isPtr := t.(*types.Pointer); isPtr {
+		byValue = false
+	}
+	if byValue {
+		c.OK(rule, "task.Task:Log.Stdout", token.NoPos, "the capture buffers are part of the task value: a value copy of a task has buffers of its own")
+		return
+	}
+	// reached through a reference: every whole-value copy must get a log of its own
+	n := 0
+	for _, fn := range p.Funcs {
+		if !an.InModule(fn) {
+			continue
+		}
+		an.EachInstr(fn, func(in ssa.Instruction) {
+			st, ok := in.(*ssa.Store)
+			if !ok {
+				return
+			}
+			al, ok := st.Addr.(*ssa.Alloc)
+			if !ok || !an.TypeIs(al.Type(), "pkg/task", "Task") {
+				return
+			}
+			if _, isStruct := st.Val.Type().Underlying().(*types.Struct); !isStruct {
+				return
+			}
+			n++
+			own := false
+			for _, s2 := range an.StoresToField(fn, al, "Log") {
+				if fresh, _ := an.FreshBase(s2.Val); fresh {
+					own = true
+				}
+			}
+			c.Check(own, rule, an.Short(fn)+":copy(Task)", st.Pos(), "the copy is given a log of its own", "a value copy of a task is made here but the capture is reached through a reference ("+where+"): the copy writes into the same buffers as the original and as every other copy — a stage that shares its task with another stage captures, exports and hands on the other stage's output as well")
+		})
+	}
+	if n == 0 {
+		c.OK(rule, "task.Task:copies", token.NoPos, "no whole-value copy of a task is made in the module")
+	}
 }
 
 // captureBufferUses checks C11.6.
